@@ -151,9 +151,13 @@ class Facts:
         self.counts = {}
         for c in CRATES:
             j = json.load(open(os.path.join(d, "facts", c + ".json")))
-            self.counts[c] = len(j["fns"])
+            self.counts[c] = len([f for f in j["fns"] if not f.get("external")])
             for f in j["fns"]:
-                self.fns[f["id"]] = Fn(f, c)
+                if f.get("external"):
+                    # library generic instantiated with a workspace closure: body available for the walk only
+                    self.fns.setdefault(f["id"], Fn(f, "ext"))
+                else:
+                    self.fns[f["id"]] = Fn(f, c)
             for a in j["adts"]:
                 self.adts.setdefault(a["path"], a)
             for n in j["instances"]["nodes"]:
